@@ -11,6 +11,7 @@ kept open below.
 -/
 import SwimVerif.Proofs.AgentMapQueue
 import SwimVerif.Model.EpochQueue
+import SwimVerif.Model.MapLane
 
 set_option linter.unusedVariables false
 namespace SwimVerif.WT
@@ -56,7 +57,10 @@ def C02_epoch_queue_refines_spec_open : Prop :=
     (q.push a).events = EQV.specPush q.events a ∧ (q.push a).invOk = true
 
 /-- take / drop remove exactly the keys designated by the key order, for both map backings -/
-def C02_take_drop_spec_open : Prop := True → True
+def C02_take_drop_spec_open : Prop :=
+  ∀ (ops : List ML.Op) (n : Nat),
+    (ML.step (ML.run {} ops) (.dropFirst n)).1.content = (ML.run {} ops).content.drop n ∧
+    (ML.step (ML.run {} ops) (.takeFirst n)).1.content = (ML.run {} ops).content.take n
 
 /-! Non-vacuity -/
 example : (mqRun {} [.push (.upd 1 [1]), .push (.upd 2 [2]), .push (.upd 1 [3]), .pop]).popped = [.upd 1 [3]] := by
